@@ -74,7 +74,22 @@ pub fn assumptions(_prop: &str) -> Vec<String> {
     ]
 }
 
-pub fn extra_coverage(_prop: &str, _rep: &crate::orchestrate::WorkerReport) -> Option<serde_json::Value> {
-    None
+pub fn extra_coverage(prop: &str, rep: &crate::orchestrate::WorkerReport) -> Option<serde_json::Value> {
+    let c = |k: &str| rep.counters.c.get(k).copied().unwrap_or(0);
+    match prop {
+        "C08" => Some(serde_json::json!({
+            "exhaustive": false,
+            "enumerated_per_file": {
+                "what": "for every file of the `truncate` mode: every truncation offset 0..len-1, the whole suffix family, all 254 unsupported version bytes; for every file of the `disk` mode: a crash after every syscall index of the writer program",
+                "files_with_all_offsets": c("enumerated.files_all_offsets"),
+                "truncation_offsets": c("fault.truncation_offsets_enumerated"),
+                "suffixes": c("fault.suffixes_appended"),
+                "version_bytes": c("fault.version_bytes_enumerated"),
+                "crash_points": c("fault.crash_points"),
+            },
+            "sampled": "file contents (fact sets, format version, record orders), writer program parameters and the durable-block choices at each crash point",
+        })),
+        _ => None,
+    }
 }
 
